@@ -20,8 +20,8 @@ def run(ctx):
             u2 = copy.copy(u)
             u2.prop = "C05"
             units.append(u2)
-    from contracts import wrapf_helpers
-    units += wrapf_helpers.UNITS
+    from contracts import wrapf_helpers, wrapp_cppif
+    units += wrapf_helpers.UNITS + wrapp_cppif.UNITS
     skip = [k["skip"] for k in ctx.known if k["status"] == "open" and k.get("skip")]
     mon = ("m_compile", lambda v: None, lambda nm: {"skip": skip}, 400)
     ctx.pyvc(units, dict((u.name, mon) for u in units))
